@@ -23,6 +23,7 @@ import Nstd.Codec.Spec
     spec-utf8 <start> <count>  -> `spec-utf8 <digest of the concatenated Spec.utf8 encodings>`
     spec-b64 <bytes>           -> `spec-b64 <Spec.rfc4648Encode>`
     spec-hex <bytes>           -> `spec-hex <Spec.upperHex>`
+    spec-wf <bytes>            -> `spec-wf <Spec.wellFormed>`
     spec-dec <decimal>         -> `spec-dec <decDigits as text> <Spec.decimalValue of it>`
 -/
 open Nstd.Common Nstd.Generated.Codec
@@ -214,6 +215,10 @@ def stepLine (st : Unit) (ws : List String) : Unit × String :=
   | ["spec-hex", d] =>
     match Nstd.Common.fromHex d with
     | some bs => s!"spec-hex {toHex (Spec.upperHex bs)}"
+    | none => "bad-op"
+  | ["spec-wf", d] =>
+    match Nstd.Common.fromHex d with
+    | some bs => s!"spec-wf {b2s (Spec.wellFormed bs)}"
     | none => "bad-op"
   | ["spec-dec", n] =>
     match n.toNat? with
